@@ -463,7 +463,11 @@ class World:
         self.guard("File.remove", None, self.objs[i].remove)
 
     def op_rtouch(self, i):
-        self.guard("File.touch", None, self.objs[i].touch)
+        x = self.objs[i]
+        had = self.recorded(x) is not None
+        ok, _ = self.guard("File.touch", None, x.touch)
+        if ok:
+            self.expect_fresh(i, "rtouch", had)     # touch() creates the file or moves its mtime: a redun-side write
 
     # ---- file family: behind the back
     def op_fwrite(self, i, content, m):
